@@ -120,3 +120,43 @@ def fail(prop, clause, detail='', **state):
         return ''
     st = ' '.join('%s=%r' % kv for kv in sorted(state.items()))
     return '%s: %s%s' % (clause, detail, (' {' + st + '}') if st else '')
+
+
+_RANGE = tuple(str(i) for i in range(64))      # strings: indexing a tuple of ints may yield a symbolic int again
+
+
+def _conc_int(a, hi=63):
+    """Concrete value of a selector in 0..hi by bisection (each comparison is one solver fork)."""
+    lo = 0
+    while lo < hi:
+        mid = (lo + hi) // 2
+        if a <= mid:
+            hi = mid
+        else:
+            lo = mid + 1
+    if a != lo:
+        raise ValueError('selector outside 0..63')
+    return lo
+
+
+def untraced(fn, *args):
+    """Run ``fn(*args)`` concretely: the (symbolic) selectors are made concrete first - by indexing a constant tuple,
+    which CrossHair decides with a balanced solver fan-out, so every value the precondition allows is still visited,
+    one per path - and the body then runs without CrossHair's tracing overhead.
+    Only for conditions whose inputs are small non-negative table selectors / booleans."""
+    try:
+        from crosshair.tracers import NoTracing, is_tracing
+    except ImportError:  # pragma: no cover
+        return fn(*args)
+    if not is_tracing():
+        return fn(*args)
+    conc = []
+    for a in args:
+        if isinstance(a, bool):
+            conc.append(True if a else False)
+        elif isinstance(a, int):
+            conc.append(_conc_int(a))
+        else:
+            raise TypeError('untraced() takes selectors only')
+    with NoTracing():
+        return fn(*conc)
